@@ -156,6 +156,11 @@ func (ip *IPv4) SerializeTo(b gopacket.SerializeBuffer, opts gopacket.SerializeO
 		}
 	}
 
+	// the header is padded to a 32 bit boundary with zeros
+	for i := curLocation; i < len(bytes); i++ {
+		bytes[i] = 0
+	}
+
 	if opts.ComputeChecksums {
 		// Clear checksum bytes
 		bytes[10] = 0
